@@ -13,6 +13,7 @@ open Otel Otel.C04
 structure Gates where
   task : Bool      -- the task-end hook blocks (only meaningful when `hasTask`)
   proc : Bool      -- every OnEnd of the span under test blocks
+  errType : Bytes := []   -- reflect type string of the harness's gate error (parameter, as in C04)
 deriving Repr
 
 inductive SOp where
@@ -24,6 +25,8 @@ inductive SOp where
   | unreg (p : Nat)
   | end_ (k : Nat)        -- start End call k (timestamp k); run it to its first gate or to its return
   | gate (k : Nat)        -- release the gate call k is blocked at; run to the next gate or to its return
+  | recErrG (k : Nat) (msg : Bytes)   -- goroutine k: RecordError(err) whose Error() parks on a gate (obs `E`)
+  | endPanic (k : Nat) (msg : Bytes)  -- goroutine k: `defer span.End(ts k); panic(err)`, same gate error
 deriving Repr, DecidableEq
 
 /-- take a label if enabled -/
@@ -66,6 +69,75 @@ def applyOp (c : Cfg) (g : Gates) (s : St) : SOp → St × String
       forward c g (fuelFor s1) s1 k
     else if (s.delivering.find? (·.1 == k)).isSome then forward c g (fuelFor s) s k
     else (s, "-")
+  | .recErrG _ _ => (s, "X")     -- handled by `applyOp2`
+  | .endPanic _ _ => (s, "X")
+
+/-! ### user code parked INSIDE a critical section
+
+`err.Error()` of RecordError and `fmt.Sprint(recovered)` of a panicking End run while the span mutex is held. The
+harness parks them on a gate (obs `E`). While a call is parked there every other span method blocks on the mutex, so
+the script may issue exactly one more op (`pendable`), which is started but not awaited (obs `~`, whatever happens —
+no timing verdict), and must then release the gate: the parked call's critical section is the next label, the pending
+op runs after it. The observation of the release is `<parked call>+<pending op>`. -/
+structure Aux where
+  parked : Option (Nat × Bytes × Bool) := none   -- call id, message, is it a panicking End
+  pending : Option SOp := none
+  used : List Nat := []                          -- ids of the gated RecordError calls
+deriving Repr
+
+def pendable : SOp → Bool
+  | .mut _ | .child _ | .isRec | .end_ _ => true
+  | _ => false
+
+def recErrOp (g : Gates) (msg : Bytes) : Lbl := .mut (.recordError (some (g.errType, msg)) [])
+
+/-- an op issued while nothing is parked inside a critical section -/
+def startOp (c : Cfg) (g : Gates) (s : St) (a : Aux) : SOp → (St × Aux) × String
+  | .recErrG k msg =>
+    if k ∈ s.ids ∨ k ∈ a.used then ((s, a), "X")
+    else if s.data.ended then ((tryStep c s (recErrOp g msg), { a with used := k :: a.used }), "r")
+    else ((s, { a with parked := some (k, msg, false), used := k :: a.used }), "E")
+  | .endPanic k msg =>
+    if k ∈ s.ids ∨ k ∈ a.used then ((s, a), "X")
+    else
+      let s1 := tryStep c s (.endCall k k)
+      if s.data.ended then
+        let s2 := tryStep c s1 (.endLockPanic k k g.errType msg)
+        let r := forward c g (fuelFor s2) s2 k
+        ((r.1, a), r.2)
+      else ((s1, { a with parked := some (k, msg, true) }), "E")
+  | .end_ k =>
+    if k ∈ a.used then ((s, a), "X") else let r := applyOp c g s (.end_ k); ((r.1, a), r.2)
+  | op => let r := applyOp c g s op; ((r.1, a), r.2)
+
+/-- the gate inside the critical section is released: the parked call's critical section happens now -/
+def release (c : Cfg) (g : Gates) (s : St) (k : Nat) (msg : Bytes) (isEnd : Bool) : St × String :=
+  if isEnd then
+    let s1 := tryStep c s (.endLockPanic k k g.errType msg)
+    forward c g (fuelFor s1) s1 k
+  else (tryStep c s (recErrOp g msg), "r")
+
+def applyOp2 (c : Cfg) (g : Gates) (s : St) (a : Aux) (op : SOp) : (St × Aux) × String :=
+  match a.parked with
+  | none => startOp c g s a op
+  | some (k, msg, isEnd) =>
+    if op = .gate k then
+      let r1 := release c g s k msg isEnd
+      let a1 : Aux := { a with parked := none, pending := none }
+      match a.pending with
+      | none => ((r1.1, a1), r1.2)
+      | some p =>
+        let r2 := startOp c g r1.1 a1 p
+        (r2.1, r1.2 ++ "+" ++ r2.2)
+    else if a.pending.isNone && pendable op then ((s, { a with pending := some op }), "~")
+    else ((s, a), "!")
+
+def runScript2 (c : Cfg) (g : Gates) : St → Aux → List SOp → (St × Aux) × List String
+  | s, a, [] => ((s, a), [])
+  | s, a, op :: r =>
+    let x := applyOp2 c g s a op
+    let y := runScript2 c g x.1.1 x.1.2 r
+    (y.1, x.2 :: y.2)
 
 def runScript (c : Cfg) (g : Gates) : St → List SOp → St × List String
   | s, [] => (s, [])
@@ -102,6 +174,45 @@ theorem applyOp_reachable {c : Cfg} (g : Gates) (s : St) (op : SOp) (h : Reachab
     | exact forward_reachable g _ _ _ (tryStep_reachable _ _ (tryStep_reachable _ _ h))
     | exact forward_reachable g _ _ _ (tryStep_reachable _ _ h)
     | exact forward_reachable g _ _ _ h
+
+theorem startOp_reachable {c : Cfg} (g : Gates) (s : St) (a : Aux) (op : SOp) (h : Reachable c s) :
+    Reachable c (startOp c g s a op).1.1 := by
+  cases op <;> simp only [startOp]
+  all_goals repeat' split
+  all_goals (try dsimp only)
+  all_goals first
+    | exact h
+    | exact applyOp_reachable g s _ h
+    | exact tryStep_reachable _ _ h
+    | exact forward_reachable g _ _ _ (tryStep_reachable _ _ (tryStep_reachable _ _ h))
+
+theorem release_reachable {c : Cfg} (g : Gates) (s : St) (k : Nat) (msg : Bytes) (isEnd : Bool) (h : Reachable c s) :
+    Reachable c (release c g s k msg isEnd).1 := by
+  simp only [release]
+  split
+  · exact forward_reachable g _ _ _ (tryStep_reachable _ _ h)
+  · dsimp only; exact tryStep_reachable _ _ h
+
+theorem applyOp2_reachable {c : Cfg} (g : Gates) (s : St) (a : Aux) (op : SOp) (h : Reachable c s) :
+    Reachable c (applyOp2 c g s a op).1.1 := by
+  simp only [applyOp2]
+  split
+  · exact startOp_reachable g s a op h
+  · split
+    · rename_i k msg isEnd _ _
+      have h1 := release_reachable g s k msg isEnd h
+      split
+      · exact h1
+      · exact startOp_reachable g _ _ _ h1
+    · split <;> exact h
+
+theorem runScript2_reachable {c : Cfg} (g : Gates) (s : St) (a : Aux) (ops : List SOp) (h : Reachable c s) :
+    Reachable c (runScript2 c g s a ops).1.1 := by
+  induction ops generalizing s a with
+  | nil => exact h
+  | cons op r ih =>
+    simp only [runScript2]
+    exact ih _ _ (applyOp2_reachable g s a op h)
 
 theorem runScript_reachable {c : Cfg} (g : Gates) (s : St) (ops : List SOp) (h : Reachable c s) :
     Reachable c (runScript c g s ops).1 := by
